@@ -28,6 +28,7 @@ VARIANTS = {
     'asan-noexc':   ASAN + ['-fno-exceptions', '-DVF_NOEXC'],
     'asan-noguard': ASAN + ['-DCPPUTEST_DISABLE_MEM_CORRUPTION_CHECK', '-DVF_NOGUARD'],
     'tsan':         ['-fsanitize=thread', '-DVF_TSAN'],
+    'tsan-noexc':   ['-fsanitize=thread', '-DVF_TSAN', '-fno-exceptions', '-DVF_NOEXC'],
     'plain':        [],
     'cov':          ['-O0', '--coverage', '-DVF_COV'],      # tools/anchor_coverage.py only (never a verdict)
 }
@@ -180,7 +181,7 @@ def san_env(variant, cfg, workdir, tag):
     if variant.startswith('asan'):
         env['ASAN_OPTIONS'] = ASAN_OPTS + (ASAN_NOSIG if cfg.get('nosig') else '')
         env['UBSAN_OPTIONS'] = UBSAN_OPTS
-    if variant == 'tsan':
+    if variant.startswith('tsan'):
         supp = os.path.join(VERIF, 'cfg', 'tsan.supp')
         env['TSAN_OPTIONS'] = 'halt_on_error=0:exitcode=0:report_signal_unsafe=0:history_size=4:second_deadlock_stack=1:suppressions=%s:log_path=%s' % (supp, os.path.join(workdir, 'tsan-' + tag))
     env.update(cfg.get('env', {}))
@@ -351,7 +352,7 @@ def run_variant(pid, cfg, variant, tier, seed, workdir, scale, jobs, only=None, 
             with open(sigp, 'rb') as f:
                 b = f.read()
             res['sigs'].update(struct.unpack('<%dQ' % (len(b) // 8), b[:len(b) // 8 * 8]))
-    if variant == 'tsan':
+    if variant.startswith('tsan'):
         for lp in glob.glob(os.path.join(workdir, 'tsan-*')):
             with open(lp, 'r', errors='replace') as f:
                 res['tsan'] += parse_tsan(f.read())
@@ -505,7 +506,7 @@ def judge(pid, cfg, tier, seed, scale, results, t0, workdir, is_replay):
         tsan_keys.setdefault(key, tr)
     for key, tr in tsan_keys.items():
         violations.append(dict(key=key, case=-1, variant='tsan', detail=tr['text'][:3000], desc=None, section='tsan'))
-    counters['tsan_report_blocks'] = len(tsan_reports) if any(v == 'tsan' for v, _ in results) else counters.get('tsan_report_blocks', 0)
+    counters['tsan_report_blocks'] = len(tsan_reports) if any(v.startswith('tsan') for v, _ in results) else counters.get('tsan_report_blocks', 0)
     # offline oracle
     post = cfg.get('post')
     if post:
